@@ -402,6 +402,11 @@ func evalFunctionTableAbs(c *Ctx, a *Anchors) []*TableEntry {
 			lost("function table: entry %q is not a struct value", key)
 		}
 		f := ev.agg.fields
+		if os.Getenv("JPCHECK_TABLE_DUMP") != "" && key == "map" {
+			for i, fv := range f {
+				fmt.Fprintf(os.Stderr, "MAPENTRY field %d: %s (k=%c tri=%d)\n", i, fv.String(), fv.k, fv.tri)
+			}
+		}
 		e := &TableEntry{Key: key, Pos: c.pos(tbl.entPos[key])}
 		if nm := f[fi("name")]; nm.k == 'S' && nm.sk {
 			e.Name = nm.s
